@@ -21,7 +21,7 @@ LEVEL_TEXT = ('static purity/effect and protocol rules over all pattern classes 
 LEVEL_NOTE = 'denotations of individual pattern classes are program semantics and are not decided'
 LEVEL_TEXT_ADD = ' Also: operand provenance of the operator patterns (shared with C15.order), list-index discipline (C13.index), in-value handed to everything embedded.'
 LEVEL_TEXT_ADD += ' Rounds e-f: Pslide position unreduced in the no-wrap branch; random stream rules (shared with C10).'
-LEVEL_TEXT_ADD += " Rounds g-h: stream reads inside the stop guard, no working list handed out, what a filter passes to its source is the consumer's in-value."
+LEVEL_TEXT_ADD += " Rounds g-h: stream reads inside the stop guard, no working list handed out, what a filter passes to its source is the consumer's in-value. Round i: a finished pattern stream stays finished."
 LEVEL_TEXT = (globals().get('LEVEL_TEXT') or EXPLANATION) + LEVEL_TEXT_ADD
 TECHNIQUE = 'static analysis: effect (purity) analysis with alias tracking + generator-protocol path rules over the class hierarchy'
 
